@@ -25,7 +25,7 @@ VERIF = os.path.dirname(os.path.dirname(os.path.abspath(__file__)))
 REPO = os.environ.get("CRAB_REPO", "/repo")
 CACHE_ROOT = os.path.join(VERIF, "out", "cache")
 PLUGIN = os.path.join(VERIF, "build", "crabfacts.so")
-KEEP_CACHES = 3
+KEEP_CACHES = 6
 
 
 class AnalysisBroken(Exception):
@@ -93,7 +93,7 @@ def list_units(repo):
 def _expected_errors():
     with open(os.path.join(VERIF, "units", "expected_errors.json")) as fh:
         d = json.load(fh)
-    return {k: v for k, v in d.items() if not k.startswith("_")}
+    return d["errors"]
 
 
 def _run_unit(args):
@@ -235,8 +235,10 @@ def _prune_caches(keep):
         if os.path.isdir(p) and p != keep:
             ds.append((os.path.getmtime(p), p))
     ds.sort(reverse=True)
-    for _, p in ds[KEEP_CACHES - 1:]:
-        shutil.rmtree(p, ignore_errors=True)
+    now = time.time()
+    for mt, p in ds[KEEP_CACHES - 1:]:
+        if now - mt > 900:          # never remove a cache another run may be reading
+            shutil.rmtree(p, ignore_errors=True)
 
 
 def ensure_facts(repo=None, verbose=True):
@@ -265,7 +267,7 @@ def ensure_facts(repo=None, verbose=True):
         with ThreadPoolExecutor(max_workers=16) as ex:
             results = list(ex.map(_run_unit, [(n, p, repo, cdir) for n, p in units]))
         for name, errs, secs, ok in results:
-            exp = expected.get(name + ".cpp", [])
+            exp = expected
             unexpected = []
             matched = set()
             for e in errs:
